@@ -131,6 +131,16 @@ func (v *VerifBatch) Table(cid int) []uint64 {
 	return ids
 }
 
+// TableHost returns, for every pending request id of a client, the forwarded host of its entry.
+func (v *VerifBatch) TableHost(cid int) map[uint64]string {
+	out := map[uint64]string{}
+	v.a.batchCommandsClients[cid].batched.Range(func(k, e interface{}) bool {
+		out[k.(uint64)] = e.(*batchCommandsEntry).forwardedHost
+		return true
+	})
+	return out
+}
+
 func (v *VerifBatch) Epoch(cid int) uint64 { return atomic.LoadUint64(&v.a.batchCommandsClients[cid].epoch) }
 
 func (v *VerifBatch) LockRecreate(cid int, on bool) {
